@@ -180,7 +180,7 @@ Fixpoint spec_items (fs : list bytes) (generic : option bytes) (join : bool) (re
   end.
 
 Definition plain_opts (o : opt) (d : byte) : Prop :=
-  o_delim o = [d] /\ o_regex o = None /\ o_json o = false /\ o_btype o = BFields
+  o_delim o = [d] /\ o_regex o = None /\ o_json o = false /\ btype_eqb (o_btype o) BChars = false
   /\ o_complement o = false /\ o_greedy o = false /\ o_compress o = false.
 
 Lemma lit_matches_byte d line : lit_matches [d] line = map dup1 (positions_from d 0 line).
@@ -236,8 +236,9 @@ Proof.
       { unfold sub. intros H0. apply (f_equal (@length _)) in H0. rewrite firstn_length, skipn_length in H0. cbn in H0. lia. }
       assert (Hsub_free : Forall (dfree d) sub) by (unfold sub; apply firstn_skipn_dfree, split_on_dfree).
       assert (HMR : maybe_replace o (intercalate [d] sub) = Some (intercalate (rep_of o d) sub)).
-      { unfold maybe_replace, rep_of. rewrite Hb, Hx. destruct (o_replace o) as [nd|]; [|reflexivity].
-        rewrite Hd. f_equal. apply replace_joined; assumption. }
+      { unfold maybe_replace, rep_of. rewrite Hx.
+        destruct (o_btype o); try discriminate; (destruct (o_replace o) as [nd|]; [|reflexivity]);
+          rewrite Hd; f_equal; apply replace_joined; assumption. }
       rewrite HMR, HEP, IH. unfold rep_of. rewrite Hd.
       destruct (spec_items (split_on d line) (o_fallback o) (o_join o) _ its); cbn [option_map]; reflexivity.
     + destruct (fallback_for b (o_fallback o)) as [fb|]; [|reflexivity].
@@ -257,7 +258,7 @@ Theorem general_plain_record o d line :
           end).
 Proof.
   intros Hpl Ht Hs Hl Hnz. pose proof Hpl as [Hd [Hx [Hj [Hb [Hc [Hg Hp]]]]]].
-  unfold cut_str. rewrite Hx, Ht, Hs, Hd, Hb, Hc, Hg, Hp, Hj. cbn [andb orb btype_eqb].
+  unfold cut_str. rewrite Hx, Ht, Hs, Hd, Hb, Hc, Hg, Hp, Hj. cbn [andb orb].
   destruct line as [|c l]; [contradiction|]. cbv iota.
   rewrite lit_matches_byte. unfold fields_of_matches.
   rewrite (out_loop_plain o d (c :: l) (items (o_bounds o)) Hpl Hl Hnz).
